@@ -284,11 +284,13 @@ def classify_site(ast, path, frec, site, par):
             gpn, gk = gp
             if gpn["t"] == "If" and gk == "cond":
                 t, why = terminates(gpn["then"])
+                if t is None and in_tail_position(gpn, fnode, par):
+                    t = True        # `if x.is_none() { <value> } else { .. }` as the value of the function: the then-branch ends the call
                 if t is True:
                     if has_effects(ast, path, gpn["then"]):
                         return "is_none-return", False, "the failure branch performs I/O or a tape write before returning"
                     return "is_none-return", True, "if x.is_none() { return .. }"
-                return "is_none", False, f"failure branch does not return ({why})"
+                return "is_none", False, f"failure branch does not return ({why if isinstance(why, str) else 'it yields a value in the middle of the function'})"
             if in_tail_position(pn, fnode, par):
                 return "flag", True, "failure flag returned to the caller (JIT shim)"
             return "is_none", False, "result of is_none() is not used to stop"
